@@ -64,7 +64,7 @@ def main():
     man = {
         "version": 1,
         "setup_cmd": "./setup.sh",
-        "hooks": {"guard": "verif", "enable": "go test -c -tags verif -overlay <overlay.json> (harness files are injected by overlay; see lib/vf.py)",
+        "hooks": {"guard": "verif", "enable": "go test -c -tags verif -overlay <overlay.json> . (the harness is injected by overlay and installs its hook function with gobinlog.VerifSetHook; see lib/vf.py)",
                   "baseline_off_cmd": "cd /repo && GOFLAGS=-mod=mod GOPROXY=off GOSUMDB=off GOTOOLCHAIN=local go test -vet=off -count=1 ./...",
                   "source_commits": HOOK_COMMITS, "add_only": True},
         "engines": [{"name": "tlc-trace", "path": "/verif/check", "serves_properties": sorted(props.REGISTRY),
@@ -80,7 +80,7 @@ def main():
 
 
 NA = {}
-HOOK_COMMITS = []
+HOOK_COMMITS = ["b8ffa54"]
 
 if __name__ == "__main__":
     main()
